@@ -81,8 +81,11 @@ class BusProtocol (txdbus.protocol.BasicDBusProtocol):
 
         msg.sender = self.uniqueName
 
-        # re-marshal with the sender set and same serial number
-        msg._marshal(False)
+        # re-marshal the header with the sender set and the same serial
+        # number; the body is forwarded as it was received, in the byte
+        # order of the original
+        msg.endian = raw_msg[0]
+        msg._marshal(False, rawBody=msg.rawBody)
 
         self.bus.messageReceived(self, msg)
 
